@@ -1,6 +1,7 @@
 package sim
 
 import (
+	"math"
 	"fmt"
 
 	"github.com/sahandsafizadeh/qeep/tensor"
@@ -44,11 +45,17 @@ type Result struct {
 	Ints    []int // Shape() result
 	Err     error
 	Crossed Crossed
+	Wrote   string // non-empty: the library changed a slice the caller passed in, during the call
 }
 
 // Pool maps ids to tensors.
 type Pool struct {
 	T map[int]tensor.Tensor
+	// Bufs, when non-nil, holds the caller's []int buffers, one per length: every
+	// dims / shape / index argument is written into the buffer of its length and
+	// that same slice is passed again by later calls (a caller that reuses one
+	// slice for many calls)
+	Bufs map[int][]int
 }
 
 func NewPool() *Pool { return &Pool{T: map[int]tensor.Tensor{}} }
@@ -218,7 +225,7 @@ func (p *Pool) Apply(s Step) (res Result) {
 		}
 		in[i] = t
 	}
-	res = ApplyOn(s, in)
+	res = applyOn(s, in, p.Bufs)
 	if res.Err == nil && res.T != nil && s.Out >= 0 {
 		p.T[s.Out] = res.T
 	}
@@ -226,7 +233,76 @@ func (p *Pool) Apply(s Step) (res Result) {
 }
 
 // ApplyOn executes one step on explicit operand tensors (no pool).
-func ApplyOn(s Step, in []tensor.Tensor) (res Result) {
+func ApplyOn(s Step, in []tensor.Tensor) (res Result) { return applyOn(s, in, nil) }
+
+func applyOn(s Step, in []tensor.Tensor, bufs map[int][]int) (res Result) {
+	cpInts := func(a []int) []int {
+		if bufs == nil || len(a) == 0 {
+			return cpInts(a)
+		}
+		b, ok := bufs[len(a)]
+		if !ok {
+			b = make([]int, len(a))
+			bufs[len(a)] = b
+		}
+		copy(b, a)
+		return b
+	}
+	defer func() {
+		// slices the caller passed in belong to the caller: when the call returns
+		// they must hold what the caller put there
+		cr := &res.Crossed
+		if s.Op != "shape" {
+			for _, d := range cr.Ints {
+				if len(d) != len(s.I) {
+					res.Wrote = fmt.Sprintf("an []int argument of %s has length %d after the call, %d before", s.Op, len(d), len(s.I))
+					return
+				}
+				for i := range d {
+					if d[i] != s.I[i] {
+						res.Wrote = fmt.Sprintf("the []int argument of %s reads %v after the call, the caller passed %v", s.Op, d, s.I)
+						return
+					}
+				}
+			}
+		}
+		for _, r := range cr.Ranges {
+			if len(r) != len(s.R) {
+				res.Wrote = fmt.Sprintf("the index argument of %s has length %d after the call, %d before", s.Op, len(r), len(s.R))
+				return
+			}
+			for i := range r {
+				if r[i].From != s.R[i][0] || r[i].To != s.R[i][1] {
+					res.Wrote = fmt.Sprintf("the index argument of %s reads %v after the call, the caller passed %v", s.Op, r, s.R)
+					return
+				}
+			}
+		}
+		for _, ts := range cr.Tensors {
+			if len(ts) != len(in) {
+				res.Wrote = fmt.Sprintf("the tensor list of %s has length %d after the call, %d before", s.Op, len(ts), len(in))
+				return
+			}
+			for i := range ts {
+				if ts[i] != in[i] {
+					res.Wrote = fmt.Sprintf("entry %d of the tensor list of %s holds another tensor after the call", i, s.Op)
+					return
+				}
+			}
+		}
+		if s.Op == "tensorof" {
+			k := 0
+			for _, row := range cr.Rows {
+				for _, v := range row {
+					if k >= len(s.F) || math.Float64bits(v) != math.Float64bits(s.F[k]) {
+						res.Wrote = "a data row passed to TensorOf holds other values after the call"
+						return
+					}
+					k++
+				}
+			}
+		}
+	}()
 	need := func(n int) bool {
 		if len(in) < n {
 			res.Err = ErrDangling{-2}
